@@ -4,9 +4,9 @@ EXTENDS Typing, TLC, Json
 
 CONSTANTS MaxN
 
-VARIABLES kind, op, n, m, k, tr, cont, elem, api, mis, twin
+VARIABLES kind, op, n, m, k, tr, cont, elem, api, mis, twin, rel
 
-vars == <<kind, op, n, m, k, tr, cont, elem, api, mis, twin>>
+vars == <<kind, op, n, m, k, tr, cont, elem, api, mis, twin, rel>>
 
 Init ==
     \/ /\ kind = "len" /\ op \in LenOps
@@ -21,20 +21,23 @@ Init ==
        /\ (op = "split_ann" => m <= n)
        /\ (op = "pop_ann" => n >= 1)
        /\ (op = "zip_ann" => n = m)
-       /\ tr = "" /\ cont = "" /\ elem = "" /\ api = "" /\ mis = "" /\ twin = FALSE
+       /\ tr = "" /\ cont = "" /\ elem = "" /\ api = "" /\ mis = "" /\ twin = FALSE /\ rel = ""
+    \/ /\ kind = "generic" /\ rel \in GenericRels /\ twin \in BOOLEAN
+       /\ op = "" /\ n = 0 /\ m = 0 /\ k = 0 /\ tr = "" /\ cont = "" /\ elem = "" /\ api = "" /\ mis = ""
     \/ /\ kind = "trait" /\ tr \in Traits /\ cont \in Containers /\ elem \in Elems
-       /\ op = "" /\ n = 3 /\ m = 0 /\ k = 0 /\ api = "" /\ mis = "" /\ twin = FALSE
+       /\ op = "" /\ n = 3 /\ m = 0 /\ k = 0 /\ api = "" /\ mis = "" /\ twin = FALSE /\ rel = ""
     \/ /\ kind = "borrow" /\ api \in RefApis /\ mis \in Misuses /\ Applies(api, mis) /\ twin \in BOOLEAN
-       /\ op = "" /\ n = 3 /\ m = 0 /\ k = 0 /\ tr = "" /\ cont = "" /\ elem = ""
+       /\ op = "" /\ n = 3 /\ m = 0 /\ k = 0 /\ tr = "" /\ cont = "" /\ elem = "" /\ rel = ""
 Next == UNCHANGED vars
 Spec == Init /\ [][Next]_vars
 
 Verdict == CASE kind = "len" -> Accept(op, n, m, k)
              [] kind = "trait" -> HasContainer(tr, cont, elem)
              [] kind = "borrow" -> twin            \* the twin (reference used before the conflicting action) is accepted
+             [] kind = "generic" -> twin           \* the declared relation is provable, the undeclared one is not
 Consistent == kind = "len" => ConsistentWithDynamic(op, n, m, k)
 \* the array has an auto trait exactly when its element type has it
 ArrayFollowsElement == kind = "trait" /\ cont = "array" => (Verdict <=> Has(tr, elem))
 Emit == PrintT(<<"SCN", ToJson([kind |-> kind, op |-> op, n |-> n, m |-> m, k |-> k, tr |-> tr, cont |-> cont, elem |-> elem,
-                               api |-> api, mis |-> mis, twin |-> twin, accept |-> Verdict])>>)
+                               api |-> api, mis |-> mis, twin |-> twin, rel |-> rel, accept |-> Verdict])>>)
 =============================================================================
